@@ -779,15 +779,18 @@ pub fn check_c08(plan: &Plan, out: &RunOutput) -> Option<Violation> {
                     .tag(format!("end={}", end.kind)),
                 );
             }
-            // R6b: the caller whose request the loop was working on is told the failure itself
-            // (not a clean "connection closed"). The loop serves requests in the order they were
-            // first polled, so that request is the earliest-polled one still unanswered — provided
-            // the loop had demonstrably started on it: it wrote `noidle` or a request line after
-            // that request was polled. Not applied to garbage (parsed at an unknown later time),
-            // to a refused idle, to cancelled requests, or when an album_art call (several
-            // requests, queue position unknown) is pending.
+            // R6b: the caller whose request was in flight is told the failure itself, not a clean
+            // "connection closed". Decided from what was on the wire, not from the order in which
+            // this implementation happens to serve its queue:
+            //  (A) a pending request whose own request line was written — or was being written
+            //      when the write failed — was in flight: that caller must get the failure;
+            //  (B) if instead the last thing written (or attempted) on behalf of the pending
+            //      requests was `noidle`, the loop had begun to serve one of them: at least one
+            //      pending caller must get the failure.
+            // Not applied to garbage (parsed at an unknown later time), to a refused idle, to
+            // cancelled requests, or when an album_art call (several requests) is pending.
             if matches!(end.kind.as_str(), "cut" | "read_err" | "reset" | "write_err") {
-                let mut q: Vec<&&OpRecord> = ops
+                let q: Vec<&&OpRecord> = ops
                     .iter()
                     .filter(|o| {
                         o.invoke_seq < observed_seq
@@ -795,27 +798,64 @@ pub fn check_c08(plan: &Plan, out: &RunOutput) -> Option<Violation> {
                             && !reply_complete_early(out, o)
                     })
                     .collect();
-                q.sort_by_key(|o| o.invoke_seq);
                 let art_pending = q.iter().any(|o| o.kind == "album_art");
-                if let (Some(head), false) = (q.first(), art_pending) {
-                    let started = out.log.iter().any(|e| {
-                        e.seq > head.invoke_seq
-                            && e.seq < observed_seq
-                            && matches!(&e.ev, Ev::ClientLine(t) if t == "noidle" || t.starts_with("req ") || t.starts_with("command_list"))
-                    });
-                    if started
-                        && head.result != OpResult::Cancelled
-                        && !matches!(head.result, OpResult::ErrProtocol(_))
+                let line_of = |e: &crate::session::net::LogEntry| -> Option<String> {
+                    match &e.ev {
+                        Ev::ClientLine(t) | Ev::WriteAttempt(t) => Some(t.clone()),
+                        _ => None,
+                    }
+                };
+                if !q.is_empty() && !art_pending {
+                    // (A)
+                    for o in &q {
+                        let Some(id) = o.ids.first() else { continue };
+                        let own = format!("req {}", id);
+                        let in_flight = out.log.iter().any(|e| {
+                            e.seq > o.invoke_seq
+                                && e.seq < observed_seq
+                                && line_of(e).map(|t| t == own).unwrap_or(false)
+                        });
+                        if in_flight
+                            && o.result != OpResult::Cancelled
+                            && !matches!(o.result, OpResult::ErrProtocol(_))
+                        {
+                            return Some(
+                                Violation::new(
+                                    "C08",
+                                    "R6_caller_in_flight_not_told_the_failure",
+                                    format!(
+                                        "the connection ended uncleanly ({}) while the request of {} was in flight (its request line had been written, or was being written when the write failed), but that caller got {} instead of the protocol error",
+                                        end.kind,
+                                        describe_op(o),
+                                        o.result.summary()
+                                    ),
+                                )
+                                .tag(format!("end={}", end.kind)),
+                            );
+                        }
+                    }
+                    // (B)
+                    let first_invoke = q.iter().map(|o| o.invoke_seq).min().unwrap_or(0);
+                    let last_line = out
+                        .log
+                        .iter()
+                        .filter(|e| e.seq > first_invoke && e.seq < observed_seq)
+                        .filter_map(|e| line_of(e))
+                        .last();
+                    if last_line.as_deref() == Some("noidle")
+                        && q.iter().all(|o| o.result != OpResult::Cancelled)
+                        && !q.iter().any(|o| matches!(o.result, OpResult::ErrProtocol(_)))
                     {
                         return Some(
                             Violation::new(
                                 "C08",
                                 "R6_caller_in_flight_not_told_the_failure",
                                 format!(
-                                    "the connection ended uncleanly ({}) while the loop was working on {} (it had written noidle or the request after the request was issued), but that caller got {} instead of the protocol error",
+                                    "the connection ended uncleanly ({}) after the loop had cancelled idle with noidle in order to serve a pending request ({} pending), but no pending caller was told the failure itself (first pending: {} got {})",
                                     end.kind,
-                                    describe_op(head),
-                                    head.result.summary()
+                                    q.len(),
+                                    describe_op(q[0]),
+                                    q[0].result.summary()
                                 ),
                             )
                             .tag(format!("end={}", end.kind)),
